@@ -200,7 +200,7 @@ def gen_content_op(rng, name, scope_enc, pool=None, big=False):
         k = rng.below(8)
 
         if k < 5:
-            op['indent'] = [0, 1, 2, 4, 7, 40, 3, None][rng.below(8)]
+            op['indent'] = [0, 1, 2, 4, 7, 40, 3, 5][rng.below(8)]
         # else: default indent (4)
 
         if rng.chance(0.5):
